@@ -164,6 +164,62 @@ def k_ttl_roundtrip(desc, F, s):
     return None
 
 
+def _sparql_string_action(name):
+    """the parse action attached to one of the SPARQL string terminals (the function the grammar author wrote, taken out of
+    pyparsing's arity wrapper)"""
+    from rdflib.plugins.sparql import parser as sp
+    el = getattr(sp, name)
+    for pa in el.parseAction:
+        cells = [c.cell_contents for c in (pa.__closure__ or ())]
+        for c in cells:
+            if callable(c) and getattr(c, "__module__", None) == sp.__name__:
+                return c
+    return None
+
+
+class _RecLit:
+    """stands for rdflib.Literal inside the parse action (a real Literal would realise the symbolic text)"""
+
+    def __init__(self, text, *a, **kw):
+        self.text = text
+
+
+class _RdflibShim:
+    def __init__(self, real):
+        self._real = real
+        self.Literal = _RecLit
+
+    def __getattr__(self, name):
+        return getattr(self._real, name)
+
+
+def k_sparql_string(desc, F, s):
+    """Literal._quote_encode (n3 text of a literal) read back by the SPARQL grammar's string terminal: the terminal's parse
+    action is applied to the whole token, as pyparsing does after the terminal's regex matched it"""
+    from rdflib.plugins.sparql import parser as sp
+    from rdflib.term import Literal
+    if desc.get("long"):
+        s = "\n" + s
+    enc = Literal._quote_encode(s)
+    name = "STRING_LITERAL_LONG2" if enc[:3] == '"""' else "STRING_LITERAL2"
+    fn = _sparql_string_action(name)
+    if fn is None:
+        from ..driver import HarnessLimit
+        raise HarnessLimit("no parse action found on sparql.parser.%s" % name)
+    real = sp.__dict__["rdflib"]
+    sp.__dict__["rdflib"] = _RdflibShim(real)
+    try:
+        out = fn([enc])
+    finally:
+        sp.__dict__["rdflib"] = real
+    if not isinstance(out, _RecLit):
+        from ..driver import HarnessLimit
+        raise HarnessLimit("the parse action does not build its result through rdflib.Literal")
+    if out.text != s:
+        return "SPARQL string terminal reads back a different string than the writer was given"
+    return None
+
+
 def k_ttl_roundtrip_long(desc, F, s):
     """same as k_ttl_roundtrip for strings containing a newline (the triple-quoted branch of Literal._quote_encode)"""
     return k_ttl_roundtrip(desc, F, "\n" + s)
@@ -465,7 +521,7 @@ def k_iri_join(desc, F, s1, s2, f, name):
     return None
 
 
-BODIES = {"k-iri-join": k_iri_join, "k-rdfxml-lang": k_rdfxml_lang, "k-ttl-roundtrip-long": k_ttl_roundtrip_long, "k-plain-num": k_plain_num, "k-nt-writer": k_nt_writer, "k-nt-quoteliteral": k_nt_quoteliteral, "k-ttl-roundtrip": k_ttl_roundtrip,
+BODIES = {"k-sparql-string": k_sparql_string, "k-iri-join": k_iri_join, "k-rdfxml-lang": k_rdfxml_lang, "k-ttl-roundtrip-long": k_ttl_roundtrip_long, "k-plain-num": k_plain_num, "k-nt-writer": k_nt_writer, "k-nt-quoteliteral": k_nt_quoteliteral, "k-ttl-roundtrip": k_ttl_roundtrip,
           "k-ttl-reader": k_ttl_reader, "k-nt-reader": k_nt_reader, "k-xml-text": k_xml_text}
 
 ESCAPES = ["", "\\n", "\\t", "\\\"", "\\'", "\\\\", "\\r", "\\b", "\\f", "\\u0041", "\\u00e9", "\\U0001F600", "\\u005C", "\\u0022",
